@@ -1070,9 +1070,10 @@ class CSSSerializer(object):
                 elif self.prefs.omitLeadingZero and -1 < value.value < 1:
                     v = self._strip_zeros('%f' % value.value)  # issue #27
                     val = v
-                    if value._sign == '-':
+                    # '%f' may have rounded up to 1.0: only ever drop a zero
+                    if v.startswith('-0.'):
                         val = v[0] + v[2:]
-                    else:
+                    elif v.startswith('0.'):
                         val = v[1:]
                 else:
 
